@@ -1,2 +1,59 @@
-(* placeholder until the theorems are proved: replaced below in this session *)
-From FrameModel Require Import Num.QcTac Geometry.Rect Alloc.Alloc.
+(* C12 - Refinement decisions are consistent, exact and terminate.
+   Statements only; every proof is [exact <lemma>]. *)
+From FrameModel Require Import Num.QcTac Geometry.Rect Alloc.Alloc Alloc.GeomExtra Alloc.RefinesFacts
+  Alloc.AcceptFacts Alloc.OpsFacts Alloc.DecisionFacts.
+Open Scope list_scope.
+Open Scope Qc_scope.
+
+(* must_be_refined(t) holds exactly when refining at t changes the allocation ... *)
+Theorem C12_mbr_iff_changes : forall t levels cells new, Forall (fun c => wf (crect c)) cells -> (0 < levels)%nat ->
+  refine_cells t levels cells = Some new ->
+  (must_be_refined t cells = true <-> new <> cells).
+Proof. exact mbr_iff_changes. Qed.
+Print Assumptions C12_mbr_iff_changes.
+
+(* ... when it holds the number of cells strictly grows (progress of the refine-while-needed loop) ... *)
+Theorem C12_mbr_true_progress : forall t levels cells new, Forall (fun c => wf (crect c)) cells -> (0 < levels)%nat ->
+  must_be_refined t cells = true -> refine_cells t levels cells = Some new ->
+  (List.length cells < List.length new)%nat.
+Proof. exact mbr_true_progress. Qed.
+Print Assumptions C12_mbr_true_progress.
+
+(* ... and when it does not, refining is the identity (the loop stops) *)
+Theorem C12_mbr_false_identity : forall t levels cells,
+  must_be_refined t cells = false -> refine_cells t levels cells = Some cells.
+Proof. exact mbr_false_identity. Qed.
+Print Assumptions C12_mbr_false_identity.
+
+(* threshold refinement splits precisely the cells that are not fixed, non-empty and in which no
+   module exceeds t: each into 2^levels cells of equal area obtained by the recursive halving of the
+   longer side (split_alloc), depth raised by levels, same map; every other cell is left as it was *)
+Theorem C12_refine_exact : forall t levels cells new, Forall (fun c => wf (crect c)) cells ->
+  refine_cells t levels cells = Some new ->
+  exists parts, new = List.concat parts /\ Forall2 (refine_cell_spec t levels) cells parts.
+Proof. exact refine_exact. Qed.
+Print Assumptions C12_refine_exact.
+
+(* one halving step of split_alloc cuts the longer side in two equal halves *)
+Theorem C12_split_halves : forall r, wf r ->
+  exists r1 r2, split r = Some (r1, r2) /\ tiles [r1; r2] r /\
+    area r1 = area r * half /\ area r2 = area r * half /\
+    same_attrs r r1 /\ same_attrs r r2 /\
+    (rw r < rh r -> rw r1 = rw r /\ rw r2 = rw r /\ rh r1 = rh r * half /\ rh r2 = rh r * half) /\
+    (rh r <= rw r -> rh r1 = rh r /\ rh r2 = rh r /\ rw r1 = rw r * half /\ rw r2 = rw r * half).
+Proof. exact Geometry.SplitFacts.split_halves. Qed.
+Print Assumptions C12_split_halves.
+
+(* uniform-depth refinement: every refinable cell ends at the former maximum depth; fixed cells and
+   cells already at that depth are left as they were *)
+Theorem C12_uniform_exact : forall cells new, Forall (fun c => wf (crect c)) cells ->
+  uniform_cells cells = Some new ->
+  exists parts, new = List.concat parts /\ Forall2 (uniform_cell_spec (max_depth cells)) cells parts.
+Proof. exact uniform_exact. Qed.
+Print Assumptions C12_uniform_exact.
+
+Theorem C12_uniform_all_at_max : forall cells new, Forall (fun c => wf (crect c)) cells ->
+  uniform_cells cells = Some new ->
+  Forall (fun p => fixed (crect p) = false -> cdepth p = max_depth cells) new.
+Proof. exact uniform_all_at_max. Qed.
+Print Assumptions C12_uniform_all_at_max.
